@@ -288,8 +288,6 @@ func (viso *VirtualISO) scanDirectory() error {
 }
 
 func (viso *VirtualISO) makeDirEntries(item *dirItem, joliet bool) error {
-	var totalSizeBytes sizeBytes
-
 	// '.' entry
 	dotEntry := directoryEntry{
 		FileFlags:            dirFlagDir,
@@ -325,8 +323,6 @@ func (viso *VirtualISO) makeDirEntries(item *dirItem, joliet bool) error {
 	} else {
 		item.dirEntry = append(item.dirEntry, dotEntry, dotDotEntry)
 	}
-
-	totalSizeBytes += dotEntry.size() + dotDotEntry.size()
 
 	// file entries
 	for _, fileItem := range item.files {
@@ -365,8 +361,6 @@ func (viso *VirtualISO) makeDirEntries(item *dirItem, joliet bool) error {
 			} else {
 				item.dirEntry = append(item.dirEntry, entry)
 			}
-
-			totalSizeBytes += entry.size()
 		}
 	}
 
@@ -392,18 +386,14 @@ func (viso *VirtualISO) makeDirEntries(item *dirItem, joliet bool) error {
 		} else {
 			item.dirEntry = append(item.dirEntry, entry)
 		}
-
-		totalSizeBytes += entry.size()
 	}
 
 	// total size must be integer number of sectors so ceil it if needed
-	totalSizeBytes = totalSizeBytes.sectors().bytes()
-
 	// set correct size to first entry
 	if joliet {
-		item.dirEntryJoliet[0].ExtentLength = totalSizeBytes
+		item.dirEntryJoliet[0].ExtentLength = directoryEntriesSize(item.dirEntryJoliet).sectors().bytes()
 	} else {
-		item.dirEntry[0].ExtentLength = totalSizeBytes
+		item.dirEntry[0].ExtentLength = directoryEntriesSize(item.dirEntry).sectors().bytes()
 	}
 
 	if parent == nil {
@@ -633,23 +623,28 @@ func (viso *VirtualISO) writeFSStructures(gameCode string) error {
 
 	// iso directories
 	for _, item := range viso.rootDir {
-		for _, dirEntry := range item.dirEntry {
-			dirEntry.encode(&viso.fsBuf)
-		}
-
-		viso.fsBuf.padLastSector()
+		viso.writeDirEntries(item.dirEntry)
 	}
 
 	// joliet directories
 	for _, item := range viso.rootDir {
-		for _, dirEntry := range item.dirEntryJoliet {
-			dirEntry.encode(&viso.fsBuf)
-		}
-
-		viso.fsBuf.padLastSector()
+		viso.writeDirEntries(item.dirEntryJoliet)
 	}
 
 	return nil
+}
+
+// writeDirEntries encodes entries of one directory starting from sector boundary.
+func (viso *VirtualISO) writeDirEntries(entries []directoryEntry) {
+	start := viso.fsBuf.size()
+
+	for _, dirEntry := range entries {
+		// record must not cross sector boundary
+		viso.fsBuf.appendZeroes(directoryEntryGap(viso.fsBuf.size()-start, dirEntry))
+		dirEntry.encode(&viso.fsBuf)
+	}
+
+	viso.fsBuf.padLastSector()
 }
 
 func (viso *VirtualISO) Read(p []byte) (int, error) {
